@@ -1,5 +1,7 @@
 #include "session_world.h"
 
+#include "net/simdns.h"
+
 #include "QXmppSasl2UserAgent.h"
 
 #include "QXmppCredentials.h"
@@ -16,8 +18,12 @@ QXmppConfiguration SessionWorld::configFromPlan(const Plan &p)
     c.setDomain(p.sknob(QStringLiteral("domain"), QStringLiteral("example.org")));
     c.setPassword(p.sknob(QStringLiteral("password"), QStringLiteral("correct horse")));
     c.setResource(p.sknob(QStringLiteral("resource"), QStringLiteral("sim")));
-    c.setHost(QStringLiteral("xmpp.sim"));
-    c.setPort(5222);
+    if (!p.knob(QStringLiteral("dnsLookup"), 0)) {
+        // explicit host and port; with dnsLookup=1 the client looks up SRV records (simulated DNS: no records), which
+        // sends it down its built-in address list: direct TLS on 5223, then plain TCP on 5222
+        c.setHost(QStringLiteral("xmpp.sim"));
+        c.setPort(5222);
+    }
     c.setStreamSecurityMode((QXmppConfiguration::StreamSecurityMode)p.knob(QStringLiteral("tlsMode"), 0));
     c.setUseSASLAuthentication(p.knob(QStringLiteral("useSasl"), 1));
     c.setUseSasl2Authentication(p.knob(QStringLiteral("useSasl2"), 1));
@@ -149,6 +155,13 @@ void SessionWorld::connectClient()
     trace.log(QStringLiteral("app: connectToServer"));
     client->connectToServer(config);
     settle();
+    if (!pendingDns().isEmpty()) {
+        const bool notFound = plan.knob(QStringLiteral("dnsNotFound"), 1);
+        const int n = completeDnsLookups(notFound);
+        trace.log(QStringLiteral("dns: %1 SRV lookup(s) answered with %2").arg(n).arg(notFound ? QStringLiteral("NXDOMAIN") : QStringLiteral("no records")));
+        probe("dns_lookup_sent_client_down_its_address_list");
+        settle();
+    }
 }
 
 void SessionWorld::resolveConnect(bool ok, int err)
